@@ -35,7 +35,7 @@ SOUP = ['CREATE', 'TABLE', 'INSERT', 'INTO', 'VALUES', 'ROP', 'REF_ID', 'FROM', 
         'TRUE', 'FALSE', 'create', 'Insert', 'X', 'Y', 'Id', 'INTEGER', 'STRING', 'UNIQUE_ID', 'BOOLEAN', 'REAL', 'M',
         'MC', '1', '1C', '0', '42', '007', '1.5', '0.0', '-', '(', ')', ',', ';', "'s'", "''", "'it''s'", "'",
         '"00000000-0000-0000-0000-000000000001"', '"x"', '""', '"', 'R1', 'R', 'R01', '-- c\n', '--', '\n', '\t', '*',
-        '.', '1e5', '$', 'é', '_a', '1a']
+        '.', '1e5', '$', 'é', '_a', '1a', "'100%'", "'%s %d'", '"%d-%(x)s"', '%', "'%%'", '{0}', "'{}'", '\\']
 
 
 def tokenize(text):
@@ -194,7 +194,8 @@ def seed_chunks():
 
 
 FLIPS = ['1', '-1', '1.5', "'s'", '"00000000-0000-0000-0000-000000000002"', '"not-a-guid"', '""', 'TRUE', 'false',
-         "''", '0', '99999999999999999999999', '"00000000-0000-0000-0000-00000000000"', "'1'"]
+         "''", '0', '99999999999999999999999', '"00000000-0000-0000-0000-00000000000"', "'1'",
+         "'100%'", "'%s'", '"%d"', "'{0}%(a)s'"]
 
 
 @st.composite
